@@ -125,6 +125,51 @@ def h_stereo(P: int, s0: int, s1: int, s2: int, s3: int, w0: int, w1: int, n0: i
     return 1
 
 
+def h_roland(mode: int, c0: int, c1: int, start: int, endp: int, cut: int, k: int) -> int:
+    """
+    pre: (mode == 0 or mode == 5) and 2 <= c0 <= 30 and 2 <= c1 <= 30 and c0 != c1
+    pre: 0 <= start <= endp < 9216 and 0 <= cut <= 0x2b1000 + 32 * 9216
+    post: _ == 1
+    """
+    CNT[0] += 1
+    _shim()
+    from smpl_extract.roland.s7xx.fat import RolandFile
+    from smpl_extract.roland.s7xx.sample_file import SampleFile
+    from smpl_extract.roland.s7xx.sample_entry import SampleParamLoopPoint as P
+    from smpl_extract.roland.s7xx.data_types import RolandLoopMode
+    LR, D0 = 9216, 0x2b1000
+    mode = 0 if mode == 0 else 5
+    f = mkfile(cut)
+    data = StreamOffset(f, 32 * LR, D0)
+    sl = [c0, c1]
+    sf = SampleFile(loop_mode=RolandLoopMode(mode), start_sample=P(0, start), sustain_loop_start=P(0, start), sustain_loop_end=P(0, endp),
+                    release_loop_start=P(0, 0), release_loop_end=P(0, 0), name="x", _data_stream=RolandFile(data, sl), _path=["v", "p", "x"])
+    cont = WavSampleAdapter(RiffStruct)._encode(sf.to_generalized(), {}, "")
+    out, total = _drain(cont["data"]["chunks"][-1]["data"], 2, 8)
+    if out is None:
+        return 0
+    n = endp - start + 1
+    if total > 2 * n:
+        return 0
+    for kk in indices(k, total):
+        w = start + (n - 1 - kk // 2) if mode == 5 else start + kk // 2
+        i = 2 * w + kk % 2
+        a = D0 + sl[i // LR] * LR + i % LR
+        if a >= cut:
+            return 0
+        for (b0, blk) in out:
+            if b0 <= kk < b0 + len(blk):
+                if not byte_is(blk, kk - b0, a):
+                    return 0
+    complete = True
+    for c in sl:
+        if D0 + (c + 1) * LR > cut:
+            complete = False
+    if complete and total != 2 * n:
+        return 0
+    return 1
+
+
 def h_cdda(f0: int, df: int, tail: int, last: int, cut: int, k: int) -> int:
     """
     pre: 0 <= f0 <= 3 and 1 <= df <= 3 and 0 <= tail <= 5000 and 0 <= last <= 1
@@ -173,7 +218,7 @@ META = {
                     "structures survive a cut is inside construct and out of the claim",
                     "RIFF length prefixes are written after buffering (construct.Prefixed), trusted; WAV well-formedness is C04"],
     "trusted": ["CPython 3.12", "z3 5.1", "CrossHair 0.0.110", "AbsFile/Spans", "NpShim (stereo)"],
-    "out_of_claim": ["Roland truncation until C02's harness is reused here", "files longer than 3 sectors"],
+    "out_of_claim": ["Roland loop modes other than forward (0) and reverse one-shot (5) under truncation", "files longer than 3 sectors"],
 }
 
 
@@ -200,6 +245,10 @@ def obligations(tier, seed):
     for region, rpre in (("r0", "w0 < 8192 and w1 < 8192"), ("r1", "w0 >= 8192 and w1 < 8192"), ("r2", "w0 < 8192 and w1 >= 8192"), ("r3", "w0 >= 8192 and w1 >= 8192")):
         obs.append(ob(f"C15.akai-stereo/{region}", "h_stereo", [rpre] + (["n0 <= 1100 and n1 <= 1100"] if q else []),
                       "cut position, both chains and windows, byte index", f"two samples <= {1100 if q else 2100} frames; cut anywhere", ["AbsFile/Spans", "NpShim"]))
+    for mode in (0, 5):
+        for region, rpre in (("lo", "start < 4608"), ("hi", "start >= 4608")):
+            obs.append(ob(f"C15.roland/mode={mode}/{region}", "h_roland", [f"mode == {mode}", rpre], "cut position, both clusters, start and end point, byte index",
+                          "2 clusters; forward and reversed window; cut anywhere", ["AbsFile/Spans", "NpShim"]))
     for last in (0, 1):
         obs.append(ob(f"C15.cdda/last={last}", "h_cdda", [f"last == {last}"], "cut position, track geometry, byte index", "tracks of 1..3 sectors, tail <= 5000", ["AbsFile/Spans"]))
     for o in c13.obligations(tier, seed):
